@@ -203,7 +203,13 @@ def run(tier):
         ("const BASE: i32 = 5;\npub const LIMIT: i32 = BASE + 1;\npub fn lib_limit() -> i32\n{\n\treturn: LIMIT\n}\n",
          "const BASE: i32 = 100;\nfn main() -> i32\n{\n\tvar a = lib_limit();\n\tprint!(LIMIT, \" \", a, \" \", BASE, \"\\n\");\n\treturn: 0\n}\n", "6 6 100"),
         ("const N: usize = 3;\npub fn len_p(x: &[N]i32) -> usize\n{\n\treturn: |x|\n}\n",
-         "const N: usize = 5;\nfn main() -> i32\n{\n\tvar a: [3]i32 = [1, 2, 3];\n\tprint!(len_p(&a), \" \", N, \"\\n\");\n\treturn: 0\n}\n", "3 5")]):
+         "const N: usize = 5;\nfn main() -> i32\n{\n\tvar a: [3]i32 = [1, 2, 3];\n\tprint!(len_p(&a), \" \", N, \"\\n\");\n\treturn: 0\n}\n", "3 5"),
+        # the same capture the other way round (D76): the PARAMETER NAME of an imported function clashes with a constant
+        # of the importer (E424), and a public constant that uses a private one cannot be imported at all (E402)
+        ("pub fn foo(n: i32) -> i32\n{\n\treturn: n + 1\n}\n",
+         "const n: i32 = 1;\nfn main() -> i32\n{\n\tprint!(foo(n), \"\\n\");\n\treturn: 0\n}\n", "2"),
+        ("const B: i32 = 2;\npub const A: i32 = B + 1;\n",
+         "fn main() -> i32\n{\n\tprint!(A, \"\\n\");\n\treturn: 0\n}\n", "3")]):
         for order in (0, 1):
             mods = [("lib.pn", lib), ("main.pn", 'import "lib.pn";\n' + main_)]
             if order: mods.reverse()
